@@ -315,8 +315,41 @@ def expr_cases_of(rng, tier, mixed):
                    "labels": [c[2] for c in chunk]}
 
 
+def guarded_partial_cases(rng, tier):
+    """the written program GUARDS an operation that cannot be carried out for some values (division by zero, an
+    index outside an array) by failing / raising / switching first; the statement with the partial operation only
+    touches per-step temporaries, so nothing but the order of the builder calls keeps it behind its guard"""
+    for _ in range(40 if tier == "quick" else 600):
+        c0 = rng.randint(0, 4)
+        y0 = c0 + rng.choice([0, 0, 1, 2, 3, -1, -2])            # d = y - c0 is 0 in about a third of the cases
+        exit_ = rng.choice([["raise", "ErrA"], ["fail"], ["switch", "other"]])
+        shape = rng.randrange(2)          # (subscripts need integer-typed values: the state components are floats)
+        prog = [["stmt", ["assign", "d", None, ["+", [["v", "<state>y"], ["c", -c0]]], []]]]
+        if shape == 0:
+            prog += [["if", ["cmp", "==", ["v", "d"], ["c", 0]]], ["stmt", exit_], ["endif"],
+                     ["stmt", ["assign", "q", None, ["/", ["c", 12], ["v", "d"]], []]]]
+        elif shape == 1:
+            # the guard AFTER a partial operation that is fine, a second partial operation behind it
+            prog += [["stmt", ["assign", "q0", None, ["/", ["c", 12], ["c", 3]], []]],
+                     ["if", ["cmp", "==", ["v", "d"], ["c", 0]]], ["stmt", exit_], ["endif"],
+                     ["stmt", ["assign", "q", None, ["+", [["v", "q0"], ["/", ["c", 12], ["v", "d"]]]], []]]]
+        else:
+            # an index that is only valid behind the guard
+            prog += [["if", ["cmp", "==", ["v", "d"], ["c", 0]]], ["stmt", exit_], ["endif"],
+                     ["stmt", ["assign", "q", None, ["sub", ["v", "<state>v"], ["+", [["v", "d"], ["c", -1 + 100 * 0]]]], []]]]
+            y0 = c0 + rng.choice([0, 0, 1, 2, 3, 4])
+        prog += [["stmt", ["assign", "<state>y", None, ["+", [["v", "<state>y"], ["v", "q"]]], []]],
+                 ["stmt", ["yield", ["v", "<state>y"], ["v", "<t>"], "final", "y"]]]
+        other = [["stmt", ["assign", "<state>y", None, ["+", [["v", "<state>y"], ["c", 1]]], []]]]
+        yield {"op": "C01.run", "tag": "guarded-partial-operation", "initial": "p0",
+               "phases": [{"name": "p0", "next": "p0", "prog": prog}, {"name": "other", "next": "p0", "prog": other}],
+               "y0": y0, "v0": [rng.randint(-4, 8) for _ in range(sc.ARR_LEN)], "t0": 0, "dt": 1,
+               "max_steps": 3, "t_end": None, "max_iters": 4}
+
+
 def cases(rng, tier):
     yield from expr_cases(rng, tier)
+    yield from guarded_partial_cases(rng, tier)
     for _ in range(400 if tier == "quick" else 8000):
         yield g_case(rng)
 
@@ -486,12 +519,16 @@ def impl(case):
         if "builder failed" in str(ex):
             return {"dropped": "builder failed"}
         raise
-    if "error" in res["interp"] and "error" in res["gen"]:
-        return {"dropped": "both back ends raise " + res["interp"]["error"].split(":")[0]}
     try:
         ref = reference(case)
     except RefUndefined as ex:
+        if "error" in res["interp"] and "error" in res["gen"]:
+            return {"dropped": "both back ends raise " + res["interp"]["error"].split(":")[0]}
         return {"dropped": "no reference semantics: " + str(ex)}
+    if "error" in res["interp"] and "error" in res["gen"]:
+        # carrying out the builder calls in the order written is defined, yet BOTH back ends raise: not a reason to
+        # look away (a builder that loses an ordering edge misleads both back ends alike)
+        return {"steps": None, "interp_error": res["interp"]["error"], "gen_error": res["gen"]["error"]}
     if "error" in res["interp"]:
         return {"steps": None, "interp_error": res["interp"]["error"], "gen": res["gen"]}
     return {"steps": res["interp"]["steps"], "gen_same": res["gen"] == res["interp"],
